@@ -5,7 +5,7 @@
 set -u
 V=$(cd "$(dirname "$0")/.." && pwd)
 D=$V/$1; TIER=${2:-quick}
-PID=$(basename "$1" | cut -c1-3)
+PID=${PID:-$(basename "$1" | cut -c1-3)}
 S=$(mktemp -d /tmp/seedtest-XXXXXX)
 trap 'rm -rf "$S"' EXIT
 rsync -a --exclude .git /repo/ "$S/repo/"
